@@ -37,6 +37,8 @@ class _Methods(dict):
 
 def storage_attr(m, c, methods):
     """The self attribute subscripted by the ``name`` parameter in ``on``."""
+    for fn_ in methods.values():
+        sa.register_self_attr_aliases(fn_)
     on = methods['on']
     s = sa.self_name(on)
     counts = {}
@@ -958,6 +960,8 @@ def _r5(model, res, m, c, methods, store):
         for fnode in [fn] + [d for d in sa.nested_defs(fn)]:
             for n in ast.walk(fnode):
                 if sa.is_self_attr(n, s, store):
+                    if sa.is_alias_definition(n):
+                        continue        # registry = self._e : every use of the local is looked at as a use of the storage
                     p = m.parent(n)
                     ok = None
                     if isinstance(p, ast.Subscript) and p.value is n:
